@@ -2059,6 +2059,11 @@ class Parallel(Logger):
         # are defined locally (inside another function) and lambda expressions.
         self._pickle_cache = dict()
 
+        # Drop the look-ahead batches that a previous call on this instance
+        # may have left behind when it was aborted (error, timeout, closed
+        # generator): they must not be dispatched as part of this call.
+        self._ready_batches = queue.Queue()
+
         output = self._get_outputs(iterator, pre_dispatch)
         self._call_ref = weakref.ref(output)
 
